@@ -151,9 +151,11 @@ fn make_obj(shape: &str) -> InMemDicomObject {
         ));
     }
     if shape == "pixel" || shape == "large" {
-        let n = if shape == "large" { 70_000u32 } else { 600u32 };
+        // odd length, and the last element of the data set: the writer's own padding byte is the very last
+        // byte of the output
+        let n = if shape == "large" { 70_001u32 } else { 601u32 };
         let px: Vec<u8> = (0..n).map(|i| (i * 7 % 253) as u8).collect();
-        obj.put(DataElement::new(tags::PIXEL_DATA, VR::OW, PrimitiveValue::from(px)));
+        obj.put(DataElement::new(tags::PIXEL_DATA, VR::OB, PrimitiveValue::from(px)));
         obj.put(DataElement::new(Tag(0x0009, 0x0010), VR::LO, "PRIVATE CREATOR"));
         obj.put(DataElement::new(Tag(0x0009, 0x1001), VR::UN, PrimitiveValue::from(vec![1u8, 2, 3, 4])));
         // odd-length values: the writer adds a padding byte of its own after the value
